@@ -1,6 +1,7 @@
 package pmc
 
 import (
+	"runtime/debug"
 	"context"
 	"encoding/hex"
 	"encoding/json"
@@ -760,6 +761,9 @@ outer:
 							e.mu.Lock()
 							if herr == nil {
 								herr = r
+								if _, ok := r.(HarnessError); !ok {
+									herr = HarnessError{fmt.Sprintf("panic in an expansion worker: %v\n%s", r, debug.Stack())}
+								}
 							}
 							e.mu.Unlock()
 						}
